@@ -2769,7 +2769,7 @@ class StateEngine(object):
             retry_timeout = context["State"].get("RetryTimeout", 0)
             self.event_dispatcher.set_timeout(asl_state_Parallel_delegate, retry_timeout)
 
-        def get_start_index(context):
+        def get_start_index(context, reentry_only=False):
             """
             Boilerplate to retrieve the start index of the Map ItemProcessor or
             Iterator. This is used in the implementation of MaxConcurrency. The
@@ -2783,8 +2783,19 @@ class StateEngine(object):
             start = 0
             context_state = context["State"]
             if "Branch" in context_state and len(context_state["Branch"]):
-                iterator_range = context_state["Branch"][-1].get("Range", "0:0")
-                start = int(iterator_range.split(":")[0])
+                branch_info = context_state["Branch"][-1]
+                """
+                When entering a Map state (reentry_only) only the marker left by
+                asl_state_collect_results to re-enter *this* Map state for its
+                next block counts. That marker has no "Index". An entry with
+                an "Index" is the info of the Iteration (or Branch) that the
+                state is running in, e.g. a Map state nested inside an Iterator
+                of an enclosing Map state, whose "Range" must not be mistaken
+                for the start of the nested Map state.
+                """
+                if not (reentry_only and "Index" in branch_info):
+                    iterator_range = branch_info.get("Range", "0:0")
+                    start = int(iterator_range.split(":")[0])
 
             return start
 
@@ -2905,7 +2916,7 @@ class StateEngine(object):
                 if length and not "Branch" in context_state:
                     context_state["Branch"] = []
 
-                start = get_start_index(context)
+                start = get_start_index(context, reentry_only=True)
                 if length:
                     if start == 0:
                         if len(context_state["Branch"]) > 0:
@@ -3080,7 +3091,7 @@ class StateEngine(object):
             the "start" index to ensure we only set the RetryTimeout for
             the first "batch".
             """
-            if get_start_index(context) == 0:
+            if get_start_index(context, reentry_only=True) == 0:
                 retry_timeout = context["State"].get("RetryTimeout", 0)
             else:
                 retry_timeout = 0
@@ -3476,7 +3487,8 @@ class StateEngine(object):
         set we will re-enter the Map state, possibly several times, to process
         the next batch of items so again we want to suppress the history update.
         """
-        reentered_map = state_type == "Map" and get_start_index(context) != 0
+        reentered_map = (state_type == "Map" and
+                         get_start_index(context, reentry_only=True) != 0)
         if not context["State"].get("RetryCount") and not reentered_map:
             self.update_execution_history(
                 state_machine,
